@@ -86,6 +86,9 @@ def parseNv (l : Line) : Option Nv.Op :=
   | "define" => some (.define tag hw (l.nat "idx") (l.nat "attrs") (l.nat "size") (l.nat "lr") (l.nat "lw"))
   | "write" => some (.write tag loc hw (l.nat "idx") (l.nat "off") (l.bytes "d"))
   | "read" => some (.read tag loc hw (l.nat "idx") (l.nat "off") (l.nat "n"))
+  | "writeauth" => some (.writeAuth (tag == .auth1 true) loc hw (l.nat "idx") (l.nat "off") (l.bytes "d"))
+  | "readauth" => some (.readAuth (tag == .auth1 true) loc hw (l.nat "idx") (l.nat "off") (l.nat "n"))
+  | "takeownership" => some .takeOwnership
   | "tscpp" => some (.tscPP (l.nat "v"))
   | "getpub" => some (.getPub (l.nat "idx"))
   | "savestate" => some .saveState
@@ -111,6 +114,8 @@ def nvBranch (s : Nv.St) (l : Line) (rc : Nat) : String :=
     | none => "undefined"
   match name with
   | "define" => s!"nv-define/{idxClass idx}/{l.str "tag"}/locked={s.mem.nvLocked}/new={attrClass (l.nat "attrs")}/size0={decide (l.nat "size" = 0)}/old={lockSt}/gl={s.globalLock}/rc={rc}"
+  | "writeauth" => s!"nv-writeauth/{l.str "tag"}/owner={s.mem.ownerInstalled}/{lockSt}/gl={s.globalLock}/len0={decide ((l.bytes "d").length = 0)}/rc={rc}"
+  | "readauth" => s!"nv-readauth/{l.str "tag"}/owner={s.mem.ownerInstalled}/{lockSt}/n0={decide (l.nat "n" = 0)}/rc={rc}"
   | "write" => s!"nv-write/{idxClass idx}/{l.str "tag"}/locked={s.mem.nvLocked}/{lockSt}/gl={s.globalLock}/len0={decide ((l.bytes "d").length = 0)}/rc={rc}"
   | "read" => s!"nv-read/{idxClass idx}/{l.str "tag"}/locked={s.mem.nvLocked}/{lockSt}/n0={decide (l.nat "n" = 0)}/rc={rc}"
   | "tscpp" => s!"nv-tscpp/v={l.nat "v"}/cmd={s.mem.ppCmd}/life={s.mem.ppLife}/lock={s.ppLock}/rc={rc}"
@@ -120,8 +125,9 @@ def nvBranch (s : Nv.St) (l : Line) (rc : Nat) : String :=
 def nvSig (name : String) : String :=
   match name with
   | "define" => "SPEC[nv-define] "
-  | "write" => "SPEC[nv-write] "
-  | "read" => "SPEC[nv-read] "
+  | "write" | "writeauth" => "SPEC[nv-write] "
+  | "read" | "readauth" => "SPEC[nv-read] "
+  | "takeownership" => "SPEC[take-ownership] "
   | "tscpp" => "SPEC[nv-physical-presence] "
   | "getpub" => "SPEC[nv-public-flags] "
   | "savestate" => "SPEC[nv-savestate] "
@@ -164,6 +170,12 @@ def stepNv (c : CS) (l : Line) : CS :=
     let c := branch c (nvBranch (Nv.invalidateSaved c.nv) l obs.rc)
     let c := { c with nv := nv' }
     let c := if l.nat "rc" ≠ obs.rc then mism c s!"{nvSig name}{name} {l.str "tag"} idx={l.nat "idx"}: rc model={obs.rc} impl={l.nat "rc"}" else c
+    -- write-through: the command hands the permanent state to the storage callback exactly when the model says so
+    let c := if l.nat "rc" = obs.rc && (l.nat? "stores").isSome && obs.stored ≠ decide (l.nat "stores" > 0) then
+        mism c s!"SPEC[nv-write-through] {name} idx={l.nat "idx"}: model stored={obs.stored}, storage callback calls={l.nat "stores"}" else c
+    -- an authorized command that succeeds answers with an HMAC that verifies under the same secret
+    let c := if l.nat "rc" = 0 && (l.get? "hmac").isSome && l.str "hmac" ≠ "1" then
+        mism c s!"SPEC[nv-response-hmac] {name} idx={l.nat "idx"}: the response HMAC does not verify (hmac={l.str "hmac"})" else c
     if l.nat "rc" = 0 && obs.rc = 0 && l.bytes "out" ≠ obs.out then
       mism c s!"{nvSig name}{name} idx={l.nat "idx"}: output model={hexOfBytes obs.out} impl={l.str "out"}"
     else c
@@ -202,6 +214,9 @@ def step (c : CS) (l : Line) : CS :=
               let c := if nobs.rc ≠ obs.rc then mism c s!"internal: the two models disagree on Startup: core={obs.rc} nv={nobs.rc}" else c
               { c with nv := nv' }
           | _ => if op.isOrdinal then { c with nv := (Nv.step c.nv .other).1 } else c
+        -- an ordinal / TIS call outside the NV model that stored the permanent state (tpmEstablished changed, ...) refreshes
+        -- what a power cycle will bring back
+        let c := if l.nat "stores" > 0 then { c with nv := (Nv.step c.nv .stored).1 } else c
         let c := branch c (opBranch l obs.rc)
         let name := l.str "name"
         let c := if l.nat "ret" ≠ 0 then mism c s!"{name}: TPMLIB_Process returned {l.nat "ret"}" else c
